@@ -67,9 +67,22 @@ type Case struct {
 	// Merge: the duty is produced from per-validator beacon-node duties by the
 	// real attester.MergeDuties (as the controller does); otherwise it is built
 	// with attester.NewDuty in the order of Vals.
-	Merge      bool   `json:"merge"`
-	SourceBack uint64 `json:"source_back"` // source epoch = target epoch - min(SourceBack, target)
-	RootSeed   uint64 `json:"root_seed"`
+	Merge bool `json:"merge"`
+	// Extra: further slots of the same epoch with duties of other validators.  With
+	// Merge the beacon-node duties of all slots go through ONE MergeDuties call (the
+	// controller merges a whole epoch at once) and Attest is run for every resulting
+	// per-slot duty in slot order.
+	Extra      []ExtraSlot `json:"extra,omitempty"`
+	SourceBack uint64      `json:"source_back"` // source epoch = target epoch - min(SourceBack, target)
+	RootSeed   uint64      `json:"root_seed"`
+}
+
+// ExtraSlot is another slot of the epoch with its own committees and validators
+// (Skip of its validators is "", "noaccount" or "zerosig").
+type ExtraSlot struct {
+	Slot       uint64      `json:"slot"`
+	Committees []Committee `json:"committees"`
+	Vals       []Val       `json:"vals"`
 }
 
 type tuple struct {
@@ -359,9 +372,9 @@ func genCase(t *rapid.T) Case {
 	}
 	usedV := map[uint64]bool{}
 	for i := 0; i < n; i++ {
-		v := rapid.Uint64Range(0, 40).Draw(t, "v")
+		v := rapid.Uint64Range(0, 99).Draw(t, "v")
 		for usedV[v] {
-			v = (v + 1) % 41
+			v = (v + 1) % 100
 		}
 		usedV[v] = true
 		ci, pos, ok := place(t, "", c.Committees, used)
@@ -379,6 +392,72 @@ func genCase(t *rapid.T) Case {
 			}
 		}
 		c.Vals = append(c.Vals, val)
+	}
+	// Further slots of the epoch.  On a live chain the same committee index exists in
+	// every slot and committee lengths differ from slot to slot, so indices of the
+	// judged slot are re-used here with other lengths most of the time.
+	nExtra := rapid.OneOf(rapid.Just(0), rapid.IntRange(0, 3)).Draw(t, "nExtraSlots")
+	usedSlot := map[uint64]bool{c.Slot: true}
+	known := append([]Committee(nil), c.Committees...)
+	for e := 0; e < nExtra && uint64(len(usedSlot)) < c.SlotsPerEpoch; e++ {
+		slot := epoch*c.SlotsPerEpoch + rapid.Uint64Range(0, c.SlotsPerEpoch-1).Draw(t, "extraSlotInEpoch")
+		for usedSlot[slot] {
+			slot = epoch*c.SlotsPerEpoch + (slot+1)%c.SlotsPerEpoch
+		}
+		usedSlot[slot] = true
+		x := ExtraSlot{Slot: slot}
+		usedIdx := map[uint64]bool{}
+		for k, nC := 0, rapid.IntRange(1, 3).Draw(t, "nExtraCommittees"); k < nC; k++ {
+			var cm Committee
+			if rapid.IntRange(0, 2).Draw(t, "reuseIndex") != 0 {
+				o := known[rapid.IntRange(0, len(known)-1).Draw(t, "reuseOf")]
+				cm.Index = o.Index
+				switch rapid.IntRange(0, 3).Draw(t, "otherLength") {
+				case 0:
+					cm.Size = o.Size + 1
+				case 1:
+					cm.Size = o.Size - 1
+				case 2:
+					cm.Size = o.Size
+				default:
+					cm.Size = rapid.Uint64Range(1, 2048).Draw(t, "extraSize")
+				}
+				if cm.Size < 1 {
+					cm.Size = 2
+				}
+				if cm.Size > 2048 {
+					cm.Size = 2047
+				}
+			} else {
+				cm = genCommittees(t, "extraCommittee", 1)[0]
+			}
+			if usedIdx[cm.Index] {
+				continue
+			}
+			usedIdx[cm.Index] = true
+			x.Committees = append(x.Committees, cm)
+			known = append(known, cm)
+		}
+		xUsed := make([]map[uint64]bool, len(x.Committees))
+		for i := range xUsed {
+			xUsed[i] = map[uint64]bool{}
+		}
+		for k, nV := 0, rapid.IntRange(1, 5).Draw(t, "nExtraVals"); k < nV; k++ {
+			v := rapid.Uint64Range(0, 99).Draw(t, "extraV")
+			for usedV[v] {
+				v = (v + 1) % 100
+			}
+			ci, pos, ok := place(t, "extra", x.Committees, xUsed)
+			if !ok {
+				break
+			}
+			usedV[v] = true
+			x.Vals = append(x.Vals, Val{V: v, C: ci, Pos: pos,
+				Skip: rapid.SampledFrom([]string{"", "", "", "", "noaccount", "zerosig"}).Draw(t, "extraSkip")})
+		}
+		if len(x.Vals) > 0 {
+			c.Extra = append(c.Extra, x)
+		}
 	}
 	return c
 }
@@ -419,6 +498,51 @@ func buildDuty(ctx context.Context, slot uint64, tuples []tuple, merge bool) (*a
 		sizes[phase0.CommitteeIndex(tp.committee)] = tp.size
 	}
 	return attester.NewDuty(ctx, phase0.Slot(slot), 64, vs, cis, poss, sizes)
+}
+
+// buildDuties builds the per-slot duties of several slots: with merge through one
+// call of the real MergeDuties for all of them, otherwise with NewDuty per slot.
+func buildDuties(ctx context.Context, bySlot map[uint64][]tuple, order []uint64, merge bool) (map[uint64]*attester.Duty, error) {
+	res := map[uint64]*attester.Duty{}
+	if !merge {
+		for _, slot := range order {
+			d, err := buildDuty(ctx, slot, bySlot[slot], false)
+			if err != nil {
+				return nil, err
+			}
+			res[slot] = d
+		}
+		return res, nil
+	}
+	var ds []*apiv1.AttesterDuty
+	for _, slot := range order {
+		for _, tp := range bySlot[slot] {
+			ds = append(ds, &apiv1.AttesterDuty{
+				Slot:                    phase0.Slot(slot),
+				ValidatorIndex:          phase0.ValidatorIndex(tp.v),
+				CommitteeIndex:          phase0.CommitteeIndex(tp.committee),
+				CommitteeLength:         tp.size,
+				CommitteesAtSlot:        64,
+				ValidatorCommitteeIndex: tp.pos,
+			})
+		}
+	}
+	duties, err := attester.MergeDuties(ctx, ds)
+	if err != nil {
+		return nil, err
+	}
+	for _, d := range duties {
+		if _, dup := res[uint64(d.Slot())]; dup {
+			return nil, fmt.Errorf("MergeDuties returned two duties for slot %d", d.Slot())
+		}
+		res[uint64(d.Slot())] = d
+	}
+	for _, slot := range order {
+		if res[slot] == nil {
+			return nil, fmt.Errorf("MergeDuties returned no duty for slot %d", slot)
+		}
+	}
+	return res, nil
 }
 
 func setBits(bits []byte, n uint64) []uint64 {
@@ -544,6 +668,8 @@ type stats struct {
 	differing, skipPrecedes                                     bool
 	attestedPrecedes, noAccountPrecedes, zeroSigPrecedes, multi bool
 	n                                                           int
+	extraSlots                                                  int
+	recurringIndexOtherLength                                   bool
 }
 
 func runAndJudge(c *Case) (harness string, js []callJudgement, st stats) {
@@ -627,22 +753,70 @@ func runAndJudge(c *Case) (harness string, js []callJudgement, st stats) {
 		}
 		js = append(js, judgeCall("preceding Attest", c.PriorSlot, priorTuples, expect, nil, priorData, submitted, sgn.reqs)...)
 	}
-	subBefore := len(sub.calls)
 
-	// Judged call.
-	duty, err := buildDuty(ctx, c.Slot, mainTuples, c.Merge)
-	if err != nil {
-		return "cannot build duty: " + err.Error(), nil, st
+	// Judged calls: the duty of the judged slot and the duties of the other slots of the
+	// epoch, all built together, attested in slot order.
+	bySlot := map[uint64][]tuple{c.Slot: mainTuples}
+	order := []uint64{c.Slot}
+	extraSkip := map[uint64]string{}
+	for _, x := range c.Extra {
+		if x.Slot == c.Slot || bySlot[x.Slot] != nil || x.Slot/c.SlotsPerEpoch != epoch || len(x.Vals) == 0 {
+			return "malformed case (extra slot)", nil, st
+		}
+		for _, v := range x.Vals {
+			if v.C < 0 || v.C >= len(x.Committees) || v.Skip == "attested" {
+				return "malformed case (extra slot validator)", nil, st
+			}
+			bySlot[x.Slot] = append(bySlot[x.Slot], tuple{v.V, x.Committees[v.C].Index, v.Pos, x.Committees[v.C].Size})
+			extraSkip[v.V] = v.Skip
+			if v.Skip != "noaccount" {
+				have[v.V] = true
+			}
+			if v.Skip == "zerosig" {
+				zero[v.V] = true
+			}
+		}
+		order = append(order, x.Slot)
 	}
-	clock.SetSlot(c.Slot, 4*time.Second)
-	dp.bySlot = map[uint64]*phase0.AttestationData{c.Slot: mainData}
+	duties, err := buildDuties(ctx, bySlot, order, c.Merge)
+	if err != nil {
+		return "cannot build duties: " + err.Error(), nil, st
+	}
+	duty := duties[c.Slot]
 	for _, v := range c.Vals {
 		if v.Skip == "zerosig" {
 			zero[v.V] = true
 		}
 	}
 	sgn.zero = zero
-	_, _ = svc.Attest(ctx, duty) // the error (e.g. nobody left to attest) is not part of this property
+	sort.Slice(order, func(i, j int) bool { return order[i] < order[j] })
+	subRange := map[uint64][2]int{}
+	dataOf := map[uint64]*phase0.AttestationData{c.Slot: mainData}
+	for _, slot := range order {
+		if slot != c.Slot {
+			dataOf[slot] = mkData(slot, byte(30+10*len(dataOf)))
+		}
+		clock.SetSlot(slot, 4*time.Second)
+		dp.bySlot = map[uint64]*phase0.AttestationData{slot: dataOf[slot]}
+		from := len(sub.calls)
+		_, _ = svc.Attest(ctx, duties[slot]) // the error (e.g. nobody left to attest) is not part of this property
+		subRange[slot] = [2]int{from, len(sub.calls)}
+	}
+	// recurring committee index with another length in the same MergeDuties call
+	{
+		sizeOf := map[uint64]uint64{}
+		for _, slot := range order {
+			for _, tp := range bySlot[slot] {
+				if sz, ok := sizeOf[tp.committee]; ok && sz != tp.size {
+					st.recurringIndexOtherLength = true
+				}
+			}
+			for _, tp := range bySlot[slot] {
+				sizeOf[tp.committee] = tp.size
+			}
+		}
+		st.extraSlots = len(c.Extra)
+	}
 
 	skipOf := map[uint64]string{}
 	for _, v := range c.Vals {
@@ -698,11 +872,23 @@ func runAndJudge(c *Case) (harness string, js []callJudgement, st stats) {
 	st.differing = len(c.Vals) >= 2 && len(tuplesSeen) >= 2
 	st.multi = len(committeesSeen) >= 2
 
-	var submitted []*phase0.Attestation
-	for _, call := range sub.calls[subBefore:] {
-		submitted = append(submitted, call...)
+	for _, slot := range order {
+		var submitted []*phase0.Attestation
+		for _, call := range sub.calls[subRange[slot][0]:subRange[slot][1]] {
+			submitted = append(submitted, call...)
+		}
+		if slot == c.Slot {
+			js = append(js, judgeCall("Attest", c.Slot, mainTuples, expect, afterAttestedSkip, mainData, submitted, sgn.reqs)...)
+			continue
+		}
+		xExpect := map[uint64]bool{}
+		for _, tp := range bySlot[slot] {
+			if extraSkip[tp.v] == "" {
+				xExpect[tp.v] = true
+			}
+		}
+		js = append(js, judgeCall(fmt.Sprintf("Attest for slot %d of the same epoch", slot), slot, bySlot[slot], xExpect, nil, dataOf[slot], submitted, sgn.reqs)...)
 	}
-	js = append(js, judgeCall("Attest", c.Slot, mainTuples, expect, afterAttestedSkip, mainData, submitted, sgn.reqs)...)
 	return "", js, st
 }
 
@@ -729,6 +915,12 @@ func check(t ev.TB, c *Case) {
 	}
 	if st.multi {
 		labels = append(labels, "several-committees")
+	}
+	if st.extraSlots > 0 {
+		labels = append(labels, "several-slots-of-the-epoch")
+	}
+	if st.recurringIndexOtherLength && c.Merge {
+		labels = append(labels, "merged-epoch-with-committee-index-recurring-at-other-length")
 	}
 	switch {
 	case st.n >= 8:
